@@ -352,7 +352,9 @@ func (rb *Buffer) ReadFrom(r io.Reader) (n int64, err error) {
 			if m < 0 {
 				panic("RingBuffer.ReadFrom: reader returned negative count from Read")
 			}
-			rb.isEmpty = false
+			if m > 0 {
+				rb.isEmpty = false
+			}
 			rb.w = (rb.w + m) % rb.size
 			n += int64(m)
 			if err == io.EOF {
@@ -360,6 +362,10 @@ func (rb *Buffer) ReadFrom(r io.Reader) (n int64, err error) {
 			}
 			if err != nil {
 				return
+			}
+			if rb.w != 0 || rb.r == 0 {
+				// The tail segment is not filled up yet, or there is no free space at the head.
+				continue
 			}
 			m, err = r.Read(rb.buf[:rb.r])
 			if m < 0 {
@@ -378,7 +384,6 @@ func (rb *Buffer) ReadFrom(r io.Reader) (n int64, err error) {
 			if m < 0 {
 				panic("RingBuffer.ReadFrom: reader returned negative count from Read")
 			}
-			rb.isEmpty = false
 			rb.w = (rb.w + m) % rb.size
 			n += int64(m)
 			if err == io.EOF {
